@@ -1,6 +1,7 @@
 SPECIFICATION Spec
 CONSTANTS
   Kinds = {"none", "raise", "value", "coro", "cororaise", "gencoro", "future", "swallow", "stop"}
+  SecondKinds = {"none", "raise", "value", "coro", "cororaise", "gencoro", "future", "swallow", "stop"}
   Durations = {0, 1, 2, 3}
   Timeouts = {0, 1, 2, 999}
   MaxCalls = 3
